@@ -142,6 +142,12 @@ type Enc struct {
 	opts EncOpts
 	invObjs []invObj
 	failed string
+	lockCount int
+	usesLocks bool
+	inlineDepth int
+	inlineSeq   int
+	inlineUsed  int
+	prefix      string
 	killedCands map[string]bool
 	skipObligations bool
 }
@@ -189,6 +195,8 @@ func (e *Enc) reset() {
 	e.knownTypeIDs = map[int]types.Type{}
 	e.implDecl = map[string]bool{}
 	e.invObjs = nil
+	e.lockCount = 0
+	e.inlineDepth, e.inlineSeq, e.inlineUsed, e.prefix = 0, 0, 0, ""
 }
 
 func (e *Enc) note(format string, args ...any) {
@@ -572,7 +580,11 @@ func (e *Enc) oblige(kind, detail string, pos token.Pos, goal Term, props []stri
 func (e *Enc) obligeNamed(name, kind, detail string, pos token.Pos, goal Term, props []string, src string) *Obligation {
 	ob := &Obligation{Name: name, Kind: kind, Detail: detail, Func: e.name, Pos: e.p.Pos(pos), Props: props, Src: src, enc: e}
 	if e.skipObligations {
-		e.assume(goal)
+		switch kind {
+		case "frame", "effect", "lock", "guard", "post", "typeinv", "typeinv-new", "cand", "monotone", "writers", "at":
+		default:
+			e.assume(goal)
+		}
 		return ob
 	}
 	ob.PrefixLen = e.sb.Len()
@@ -590,7 +602,7 @@ func (e *Enc) obligeNamed(name, kind, detail string, pos token.Pos, goal Term, p
 	// preconditions, invariants); pure proof goals (frames, effects, locks, postconditions) are not assumed,
 	// so that one failing goal does not make the goals after it vacuous.
 	switch kind {
-	case "frame", "effect", "lock", "post", "typeinv", "typeinv-new", "cand":
+	case "frame", "effect", "lock", "guard", "post", "typeinv", "typeinv-new", "cand", "monotone", "writers", "at":
 	default:
 		e.assume(goal)
 	}
@@ -824,7 +836,7 @@ func (e *Enc) encodeBlock(b *ssa.BasicBlock) {
 			edges = append(edges, e.edge(p, b))
 			states = append(states, e.exit[p])
 		}
-		r := e.declare(fmt.Sprintf("R_%d", b.Index), SBool)
+		r := e.declare(fmt.Sprintf("R_%s%d", e.prefix, b.Index), SBool)
 		e.assert(Eq(r, Or(edges...)))
 		e.curReach = r
 		e.cur = e.mergeStates(b, edges, states)
@@ -960,7 +972,7 @@ func (e *Enc) valName(v ssa.Value) string {
 	if phi, ok := v.(*ssa.Phi); ok && phi.Comment != "" {
 		n += "_" + phi.Comment
 	}
-	return "v_" + sanitize(n)
+	return "v_" + e.prefix + sanitize(n)
 }
 
 // ---------- exit / postconditions ----------
